@@ -748,6 +748,10 @@ impl AsyncRead for TcpStream {
             let p = &mut w.net.conns[conn].pipes[1 - side];
             if let Some((at, kind)) = p.read_fault {
                 if p.total_read >= at {
+                    // transient kinds are reported once, the stream is intact afterwards
+                    if matches!(kind, io::ErrorKind::Interrupted | io::ErrorKind::WouldBlock) {
+                        p.read_fault = None;
+                    }
                     w.event("read_err", conn as u64, side as u64);
                     return Poll::Ready(Err(io::Error::from(kind)));
                 }
